@@ -21,7 +21,8 @@ ID = 'C13'
 LEVEL = 'exploration'
 TECHNIQUE = 'exhaustive enumeration of all strings / token sequences up to a length bound and all 1-2 step mutations of seed scripts; per-input alarm, execution canary, build+instantiate, statement accounting'
 RULE = ('(a) all strings of length <= 4 (quick) / <= 5 (thorough) over 25 characters; (b) all sequences of <= 3 (quick) / <= 4 (thorough) tokens over 32 tokens; '
-        '(c) all single mutations (quick) / single and double mutations (thorough) of 12 seed scripts (token deletion, duplication, adjacent swap, bracket insertion). '
+        '(c) all single mutations (quick) / single and double mutations (thorough) of 16 seed scripts (token deletion, duplication, adjacent swap, bracket insertion); '
+        '(d) all sequences of <= 6 (quick) / <= 7 (thorough) tokens over the 8-token alphabet {X, exp, =, (, ), 1, space, [-1]} (names in several roles). '
         'non-trivial = input that is not rejected by the very first equation regex test, i.e. reaches term parsing, or is accepted; distinct by input text')
 ASSUMPTIONS = [
     'reference statement split: physical lines joined while parentheses or a code fence are open; blank and comment-only lines dropped',
@@ -44,7 +45,12 @@ SEEDS = [
     'Y = print(X)',
     'Y = 10.0 ** X / (Z - 1)',
     'Y = X if not Z else -W',
+    "Y = Y[-1] * (1 + {g})\nI = 100 * Y / Y['b']",
+    "A = B['b'] + B[-2]\nC = B[1] / B[`0`]",
+    'f = f(X)',
+    'max = max(A, B[-1])',
 ]
+SMALL_TOKENS = ['X', 'exp', '=', '(', ')', '1', ' ', '[-1]']
 
 OWN = (ParserError, SymbolError, IndentationError)
 
@@ -246,6 +252,9 @@ def blocks(tier, seed):
     maxtok = 3 if tier == 'quick' else 4
     for a in TOKENS:
         out.append({'kind': 'tokens', 'first': a, 'max': maxtok})
+    for a in SMALL_TOKENS:
+        for b in SMALL_TOKENS:
+            out.append({'kind': 'small-tokens', 'first': a + b, 'max': 6 if tier == 'quick' else 7})
     for i in range(len(SEEDS)):
         if tier == 'quick':
             out.append({'kind': 'mutations', 'seed': i, 'double': False, 'part': 0, 'parts': 1})
@@ -299,6 +308,13 @@ def run_block(block, tier, seed):
                         yield pre + ''.join(tail)
             run_inputs(gen(), acc, sink, 'string')
             acc.sample({'kind': 'string', 's': pre + '=X'}, limit=1)
+        elif block['kind'] == 'small-tokens':
+            def gen():
+                for L in range(0, block['max'] - 1):
+                    for tail in itertools.product(SMALL_TOKENS, repeat=L):
+                        yield block['first'] + ''.join(tail)
+            run_inputs(gen(), acc, sink, 'small-tokens')
+            acc.sample({'kind': 'small-tokens', 's': block['first'] + '=exp(X)'}, limit=1)
         elif block['kind'] == 'tokens':
             def gen():
                 for L in range(0, block['max']):
